@@ -207,8 +207,9 @@ fn get_refetch_selectable(
         name: (*REFETCH_FIELD_NAME),
         variant: ClientFieldVariant::ImperativelyLoadedField(ImperativelyLoadedFieldVariant {
             selectable_name: (*REFETCH_FIELD_NAME),
-            // TODO use the actual schema query type
-            root_object_entity_name: "Query".intern().into(),
+            // The refetch query is rooted at the type that can fetch this entity, i.e.
+            // the schema's query type, whatever its name. It is found through this entity.
+            root_object_entity_name: server_object_entity_name,
             subfields_or_inline_fragments,
             field_map: vec![FieldMapItem {
                 from: (*ID_FIELD_NAME).unchecked_conversion(),
